@@ -80,11 +80,14 @@ func (s *Service) Proposal(ctx context.Context,
 				if len(providerGraffiti) > 32 {
 					providerGraffiti = providerGraffiti[0:32]
 				}
+				// The graffiti can be shorter than 32 bytes after replacement, so copy rather than convert.
+				var graffiti [32]byte
+				copy(graffiti[:], providerGraffiti)
 				// Replace entire opts structure so the mutated graffiti does not leak to other providers.
 				opts = &api.ProposalOpts{
 					Slot:                   opts.Slot,
 					RandaoReveal:           opts.RandaoReveal,
-					Graffiti:               [32]byte(providerGraffiti),
+					Graffiti:               graffiti,
 					SkipRandaoVerification: opts.SkipRandaoVerification,
 				}
 			}
